@@ -167,7 +167,13 @@ def z_factor_hallyarbrough(pressure: float, temperature: float) -> float:
             - (29.52 * t - 19.52 * t**2 + 9.16 * t**3) * y
             + (2.18 + 2.82 * t) * (90.7 * t - 242.2 * t**2 + 42.4 * t**3) * y ** (1.18 + 2.82 * t)
         )
-        y = y - fdum / dfdy
+        y_new = y - fdum / dfdy
+        # keep the reduced density inside (0, 1), where the equation is defined
+        if y_new <= 0:
+            y_new = y / 2
+        elif y_new >= 1:
+            y_new = (y + 1) / 2
+        y = y_new
     zfact = 0.06125 * pressure * t * np.exp(-1.2 * (1 - t) ** 2) / y
     return zfact
 
